@@ -112,14 +112,52 @@ fn drive_shared(mut it: Iter<'_, Tracked>, sel: &[Obs], script: &[Step]) -> R<()
                 // the element in the middle of what is left, looked for from both ends
                 let target = rem.get(n / 2).map(|o| o.id);
                 let idof = |t: &Tracked| t.peek_id().unwrap_or(0);
-                let pos = it.clone().position(|t| Some(idof(t)) == target);
-                let rpos = it.clone().rposition(|t| Some(idof(t)) == target);
+                // every searching adaptor is also checked for the state it leaves the iterator in:
+                // exactly the elements after (resp. before) the match remain
+                let after = |c: Iter<'_, Tracked>, what: &str, exp: &[Obs]| -> R<()> {
+                    if c.len() != exp.len() {
+                        return Err(format!("after {what} the iterator reports {} remaining elements, expected {}", c.len(), exp.len()));
+                    }
+                    for (k, t) in c.enumerate() {
+                        chk(what, Some(t), exp.get(k))?;
+                    }
+                    Ok(())
+                };
                 let want = if n > 0 { Some(n / 2) } else { None };
-                if pos != want || rpos != want {
-                    return Err(format!("position()/rposition() of the middle element gave {:?}/{:?}, expected {:?}", pos, rpos, want));
+                for last_too in [false, true] {
+                    // search for the middle element and (second round) for the last one
+                    let (target, want, mid) = if last_too && n > 0 { (rem.last().map(|o| o.id), Some(n - 1), n - 1) } else { (target, want, n / 2) };
+                    let mut c = it.clone();
+                    let pos = c.position(|t| Some(idof(t)) == target);
+                    if pos != want {
+                        return Err(format!("position() gave {:?}, expected {:?}", pos, want));
+                    }
+                    after(c, "position()", if n > 0 { &rem[mid + 1..] } else { &[] })?;
+                    let mut c = it.clone();
+                    let rpos = c.rposition(|t| Some(idof(t)) == target);
+                    if rpos != want {
+                        return Err(format!("rposition() gave {:?}, expected {:?}", rpos, want));
+                    }
+                    after(c, "rposition()", if n > 0 { &rem[..mid] } else { &[] })?;
+                    let mut c = it.clone();
+                    chk("find()", c.find(|t| Some(idof(t)) == target), rem.get(mid))?;
+                    after(c, "find()", if n > 0 { &rem[mid + 1..] } else { &[] })?;
+                    let mut c = it.clone();
+                    chk("rfind()", c.rfind(|t| Some(idof(t)) == target), rem.get(mid))?;
+                    after(c, "rfind()", if n > 0 { &rem[..mid] } else { &[] })?;
+                    let mut c = it.clone();
+                    let _ = c.any(|t| Some(idof(t)) == target);
+                    after(c, "any()", if n > 0 { &rem[mid + 1..] } else { &[] })?;
+                    let mut c = it.clone();
+                    let _ = c.all(|t| Some(idof(t)) != target);
+                    after(c, "all()", if n > 0 { &rem[mid + 1..] } else { &[] })?;
+                    let mut c = it.clone();
+                    let _ = c.by_ref().take(mid.min(n)).count();
+                    after(c, "by_ref().take(k).count()", &rem[mid.min(n)..])?;
+                    let mut c = it.clone();
+                    let _ = c.by_ref().skip_while(|t| Some(idof(t)) != target).next();
+                    after(c, "skip_while().next()", if n > 0 { &rem[mid + 1..] } else { &[] })?;
                 }
-                chk("find()", it.clone().find(|t| Some(idof(t)) == target), rem.get(n / 2))?;
-                chk("rfind()", it.clone().rfind(|t| Some(idof(t)) == target), rem.get(n / 2))?;
                 // ids ascend with creation order only by accident, so use addresses of the expected elements
                 let maxid = rem.iter().map(|o| o.id).max();
                 let minid = rem.iter().map(|o| o.id).min();
@@ -516,17 +554,25 @@ impl St {
                         }
                         Step::Search => {}
                         Step::Count | Step::Fold | Step::Last | Step::RevCollect | Step::Skip(_) | Step::StepBy(_) | Step::RFold | Step::RevLast => {
-                            let (v, rev) = match st {
-                                Step::Fold => (it.fold_collect(), false),
-                                Step::RFold | Step::RevLast => (it.rfold_collect(), true),
-                                _ => (it.collect_vec(), false),
+                            let all: Vec<u32> = before[lo..hi].iter().map(|m| m.0).collect();
+                            let (v, want): (Vec<Tracked>, Vec<u32>) = match st {
+                                Step::Fold => (it.fold_collect(), all),
+                                Step::RFold => (it.rfold_collect(), all.into_iter().rev().collect()),
+                                Step::RevLast => (it.rev_last().into_iter().collect(), all.into_iter().take(1).collect()),
+                                Step::Last => (it.last_rest().into_iter().collect(), all.into_iter().rev().take(1).collect()),
+                                Step::Skip(k) => (it.skip_collect(*k as usize), all.into_iter().skip(*k as usize).collect()),
+                                Step::StepBy(k) => (it.step_by_collect(*k as usize), all.into_iter().step_by(*k as usize + 1).collect()),
+                                Step::Count => {
+                                    let c = it.count_rest();
+                                    if c != all.len() {
+                                        return Err(format!("count() of the owning iterator = {c}, expected {}", all.len()));
+                                    }
+                                    (Vec::new(), Vec::new())
+                                }
+                                _ => (it.collect_vec(), all),
                             };
                             let ids: Vec<u32> = v.iter().map(|t| t.raw_id()).collect();
                             got.extend(v);
-                            let mut want: Vec<u32> = before[lo..hi].iter().map(|m| m.0).collect();
-                            if rev {
-                                want.reverse();
-                            }
                             if ids != want {
                                 return Err(format!("collect() of the rest gave ids {:?}, expected {:?}", ids, want));
                             }
